@@ -186,6 +186,9 @@ func c04(r *Report) propMeta {
 	})
 	r.ExternalCallers("point-parsers", "pkg/tss", "secp256k1/v4.ParsePubKey", []string{"pkg/tss.Point.publicKey", "pkg/tss/internal/schnorr.ParseSignature", "pkg/tss/internal/schnorr.ParseComplaintSignature"})
 
+	r.Rule("C04.R11", "E20 event agreement: what the cylinder group workers read is emitted")
+	r.EventAgreement("events", 1, "cylinder/workers/group")
+
 	return propMeta{
 		Decided: []string{
 			"R1 each DKG handler writes only when group.Status is its round, the member id belongs to the sender, nothing was submitted before, and the round's verification passed; the next round is queued exactly at count == group.Size (counted after the write); all complaints of one message name one complainant",
@@ -198,6 +201,7 @@ func c04(r *Report) propMeta {
 			"R8 every pkg/tss-typed field of the four DKG messages (commits, one-time key, both proofs, encrypted shares, key-sym, complaint signature, own-key signature) reaches its own type's Validate() from ValidateBasic",
 			"R9 every pkg/tss byte type has exactly one accepted length (Point 33 - compressed only, finding F6 -, Scalar 32, EncSecretShare 48, Signature 65, ComplaintSignature 98): the raw bytes are hashed, a second encoding of the same value would change challenges and symmetric keys",
 			"R10 the errors DecryptSecretShare can return originate only from the ciphertext length check and the AES/HKDF primitives (error-origin census): a value-dependent rejection of the plaintext would turn a complaint about a deliberately out-of-range share into a FAILED complaint (seed C04-5)",
+			"R11 every (event type, attribute key) pair the cylinder group workers read (create_group / round1_success / round2_success . group_id) is emitted by x/tss",
 		},
 		Undecided: []string{"that consistent commitments imply a shared key any threshold subset can use (algebra)", "'an honest member is never marked malicious' (needs the algebra behind R3)", "expiry interleavings"},
 		Assume:    []string{"secp256k1 / elgamal / schnorr primitives of pkg/tss", "msg handlers atomic"},
